@@ -316,7 +316,7 @@ impl Property for C08 {
     fn assumptions() -> Vec<String> {
         vec![
             "partitions and random link failures are not mixed with holds (fail_rate = 0; mixing hold with one-way partitions is documented as unsupported)".into(),
-            "no time bound is demanded for the receipt after a release; the run continues at least 3*(ceil(max_latency/tick)+2)+4 steps after the final release-all and every message must have been received by then".into(),
+            "no time bound is stated for the receipt after a release: a released message counts as lost only if it is still missing max_latency + 4 ticks after the release when the run ends, and until it is received it may or may not still be listed by Sim::links".into(),
             "a TCP data frame / FIN counts as receivable only when every earlier segment of its stream direction (and the SYN) has been released too".into(),
             "a message that a release made deliverable and that is hit by a new hold before the link clock moved may be held again or not".into(),
             "order is judged per receiving socket".into(),
@@ -594,10 +594,10 @@ impl Property for C08 {
                                         maybe.insert(*m);
                                     }
                                 }
-                                St::Released { clock, certain, .. } => {
-                                    if clock >= c || (!certain && send.step as u64 * tick + model.lmax > c) {
-                                        maybe.insert(*m);
-                                    }
+                                // the text sets no time bound between a release and the receipt: until it is
+                                // received a released message may or may not still be listed
+                                St::Released { .. } => {
+                                    maybe.insert(*m);
                                 }
                             }
                         }
@@ -684,7 +684,8 @@ impl Property for C08 {
             let send = &tr.evs[ms.send];
             let due = match ms.st {
                 St::Timed => end_clock >= send.t + model.lmax + 4 * tick,
-                St::Released { clock, certain, .. } => end_clock >= clock + 4 * tick && (certain || end_clock >= send.t + model.lmax + 4 * tick),
+                // no time bound is stated for the receipt after a release: a full further latency window is granted
+                St::Released { clock, .. } => end_clock >= clock + model.lmax + 4 * tick && end_clock >= send.t + model.lmax + 4 * tick,
                 St::Held | St::Maybe => false,
             };
             let flows = !matches!(ms.st, St::Held | St::Maybe);
